@@ -655,9 +655,12 @@ func splitCounterName(name string) (graphName, bucketName) {
 // TODO(hyangah): replace with go/version.Lang (available from go1.22)
 // after our builders stop running go1.21.
 func goMajorMinor(v string) string {
+	if len(v) < 2 {
+		return ""
+	}
 	v = v[2:]
 	maj, x, ok := cutInt(v)
-	if !ok {
+	if !ok || x == "" {
 		return ""
 	}
 	x = x[1:]
